@@ -866,7 +866,7 @@ func main() {
 			if tier == "thorough" {
 				return 100000
 			}
-			return 3000
+			return 2000
 		},
 		Run: run,
 		Floors: map[string]int64{"ops": 10000, "oracle_comparisons": 20000, "member_added_callbacks": 5000,
